@@ -1,26 +1,31 @@
 import NanoVerif.Model.EarlyStopping
 /-!
-  C11 — skeleton of the round loop of gradient boosting (`::fit` in src/gboost/model.cpp:74-196), of the prediction
-  (`gboost_model_t::do_predict`, model.cpp:331-339) and of the fold averaging (`gboost_model_t::fit`, model.cpp:284-304).
+  C11 — skeleton of the round loop of gradient boosting (`::fit` in src/gboost/model.cpp:72-194), of the prediction
+  (`gboost_model_t::do_predict`, model.cpp:332-340) and of the fold averaging (`gboost_model_t::fit`, model.cpp:286-311).
   Core Lean only.
 
   Everything numeric of a boosting round (gradients, the choice and the scaling of the weak learner, shrinkage, the
   evaluation of the loss) is an *oracle answer* carried by `RoundEv`: the theorems hold for every such answer.
   `wlearner::merge` (called by `result_t::done` and after the fold concatenation) only re-associates weak learners
   that use the same features; it is not modelled.
+
+  Tie to the code: with the trace hook H3 (`NANO_VERIF_TRACE("gboost.…")` in model.cpp / result.cpp) the harness runs real
+  fits, logs these oracle answers and the decisions of the loop, and `Driver/Boost.lean` replays the answers through
+  `roundEv` / `loopTrace` / `fitObs` / `averaged`: every decision must be reproduced exactly (family `gbloop`).
+  (Line numbers: /repo before the hook lines were added.)
 -/
 namespace NanoVerif.Boost
 open NanoVerif.Gen.EarlyStopping
 
 /-- what one iteration of the round loop observes -/
 inductive RoundEv (L α : Type) where
-  /-- `if (!best_wlearner) { break; }` (model.cpp:147-150) -/
+  /-- `if (!best_wlearner) { break; }` (model.cpp:146-149) -/
   | noLearner : RoundEv L α
-  /-- the scaling failed: `result.update(round + 1, …, std::move(best_wlearner)); break;` (model.cpp:160-165) —
+  /-- the scaling failed: `result.update(round + 1, …, std::move(best_wlearner)); break;` (model.cpp:159-164) —
       the learner is appended but `optimum.done` is not called -/
   | scaleFail (w : L) : RoundEv L α
   /-- the learner was scaled, the outputs updated, `result.update(round + 1, …, best_wlearner)` appended it, and
-      `optimum.done(values, …, result.m_wlearners, …)` is called with these mean errors (model.cpp:167-191) -/
+      `optimum.done(values, …, result.m_wlearners, …)` is called with these mean errors (model.cpp:166-187) -/
   | fitted (w : L) (train valid : α) : RoundEv L α
 
 structure LoopSt (L α : Type) where
@@ -29,16 +34,43 @@ structure LoopSt (L α : Type) where
 
 variable {L α : Type} [Add α] [Sub α] [Mul α] [LT α] [LE α] [DecidableLT α] [DecidableLE α]
 
-/-- `for (round = 0; round < max_rounds; ++round) { … }`: the list holds the events of the iterations in order; the
-    call made when `n` learners are present names its `errors_losses` tensor `n + 1` (the call before the loop is 1) -/
-def loop (eps : α) (pat ntrain nvalid : Nat) : LoopSt L α → List (RoundEv L α) → LoopSt L α
-  | st, [] => st
-  | st, .noLearner :: _ => st
-  | st, .scaleFail w :: _ => { st with learners := st.learners ++ [w] }
-  | st, .fitted w t v :: rest =>
+/-- one iteration of the body of `for (round = 0; round < max_rounds; ++round) { … }` (model.cpp:128-188): the state
+    after it and whether the loop is left by a `break`; the call made when `n` learners are present names its
+    `errors_losses` tensor `n + 1` (the call before the loop is 1) -/
+def step (eps : α) (pat ntrain nvalid : Nat) (st : LoopSt L α) : RoundEv L α → LoopSt L α × Bool
+  | .noLearner => (st, true)
+  | .scaleFail w => ({ st with learners := st.learners ++ [w] }, true)
+  | .fitted w t v =>
     let ws := st.learners ++ [w]
     let r := done eps pat st.es { train := t, valid := v, n := ws.length, ntrain := ntrain, nvalid := nvalid, idx := ws.length + 1 }
-    if r.2 then { learners := ws, es := r.1 } else loop eps pat ntrain nvalid { learners := ws, es := r.1 } rest
+    ({ learners := ws, es := r.1 }, r.2)
+
+/-- the round loop: the list holds the events of the iterations in order (it is cut at `max_rounds` by `fitLoop`) -/
+def loop (eps : α) (pat ntrain nvalid : Nat) : LoopSt L α → List (RoundEv L α) → LoopSt L α
+  | st, [] => st
+  | st, ev :: rest =>
+    if (step eps pat ntrain nvalid st ev).2 then (step eps pat ntrain nvalid st ev).1
+    else loop eps pat ntrain nvalid (step eps pat ntrain nvalid st ev).1 rest
+
+/-- the same loop, keeping what every executed iteration produced (the state after it, whether it left the loop): this is
+    what the differential run compares with the records of the trace hook, iteration by iteration -/
+def loopTrace (eps : α) (pat ntrain nvalid : Nat) : LoopSt L α → List (RoundEv L α) → List (LoopSt L α × Bool)
+  | _, [] => []
+  | st, ev :: rest =>
+    step eps pat ntrain nvalid st ev ::
+      (if (step eps pat ntrain nvalid st ev).2 then [] else loopTrace eps pat ntrain nvalid (step eps pat ntrain nvalid st ev).1 rest)
+
+/-- the calls of `optimum.done` made inside the loop, in order (none by an iteration that leaves through the no-learner or
+    the scaling-failure exit, none after a call that answered `true`) -/
+def callsMade (eps : α) (pat ntrain nvalid : Nat) : LoopSt L α → List (RoundEv L α) → List (Call α)
+  | _, [] => []
+  | _, .noLearner :: _ => []
+  | _, .scaleFail _ :: _ => []
+  | st, .fitted w t v :: rest =>
+    let c : Call α := { train := t, valid := v, n := (st.learners ++ [w]).length, ntrain := ntrain, nvalid := nvalid,
+                        idx := (st.learners ++ [w]).length + 1 }
+    c :: (if (done eps pat st.es c).2 then []
+          else callsMade eps pat ntrain nvalid { learners := st.learners ++ [w], es := (done eps pat st.es c).1 } rest)
 
 /-- `::fit` up to (not including) `result.done`: the call on the bias-only model (`max_rounds = 0` when it answers
     true), then the loop over at most `maxRounds` iterations -/
@@ -47,6 +79,14 @@ def fitLoop (eps : α) (pat ntrain nvalid maxRounds : Nat) (vmax train0 valid0 :
   let r := done eps pat (init vmax) { train := train0, valid := valid0, n := 0, ntrain := ntrain, nvalid := nvalid, idx := 1 }
   if r.2 then { learners := [], es := r.1 }
   else loop eps pat ntrain nvalid { learners := [], es := r.1 } (evs.take maxRounds)
+
+/-- every call of `optimum.done` made by `::fit`: the one on the bias-only model, then those of the loop -/
+def fitCalls (eps : α) (pat ntrain nvalid maxRounds : Nat) (vmax train0 valid0 : α) (evs : List (RoundEv L α)) :
+    List (Call α) :=
+  let c0 : Call α := { train := train0, valid := valid0, n := 0, ntrain := ntrain, nvalid := nvalid, idx := 1 }
+  c0 :: (if (done eps pat (init vmax) c0).2 then []
+         else callsMade eps pat ntrain nvalid { learners := ([] : List L), es := (done eps pat (init vmax) c0).1 }
+                (evs.take maxRounds))
 
 /-- `result.done(optimum.round())` = `m_wlearners.erase(begin() + round, end())`: the kept learners and the monitor -/
 def fit (eps : α) (pat ntrain nvalid maxRounds : Nat) (vmax train0 valid0 : α) (evs : List (RoundEv L α)) :
@@ -60,6 +100,35 @@ def learnersOf : List (RoundEv L α) → List L
   | .noLearner :: _ => []
   | .scaleFail w :: _ => [w]
   | .fitted w _ _ :: rest => w :: learnersOf rest
+
+/-! ### what an iteration observes before it decides (the oracle answers logged by the trace hook) -/
+
+/-- the numbers one iteration reads: the score and the fitted clone of every prototype in order (model.cpp:136-145),
+    `gstate.x().min()` (model.cpp:159; read only when a learner was chosen) and the mean errors after the update
+    (model.cpp:180-184; read only when the scaling succeeded) -/
+structure RoundObs (L α : Type) where
+  cands : List (α × L)
+  xmin : α
+  train : α
+  valid : α
+
+/-- `best_score = no_fit_score(); best_wlearner = {}; for (prototype) { if (score < best_score) { best_score = score;
+    best_wlearner = wlearner; } }` (model.cpp:134-145) -/
+def pickBest (noFit : α) (cands : List (α × L)) : α × Option L :=
+  cands.foldl (fun b c => if c.1 < b.1 then (c.1, some c.2) else b) (noFit, none)
+
+/-- the branch an iteration takes: `if (!best_wlearner) break;` (model.cpp:146-149), then
+    `if (gstate.x().min() < numeric_limits<scalar_t>::epsilon()) { …; break; }` (model.cpp:159-164), else the regular
+    round; `epsMach` = `numeric_limits<scalar_t>::epsilon()` -/
+def roundEv (noFit epsMach : α) (o : RoundObs L α) : RoundEv L α :=
+  match (pickBest noFit o.cands).2 with
+  | none => .noLearner
+  | some w => if o.xmin < epsMach then .scaleFail w else .fitted w o.train o.valid
+
+/-- `::fit` driven by the observations -/
+def fitObs (eps : α) (pat ntrain nvalid maxRounds : Nat) (vmax noFit epsMach train0 valid0 : α)
+    (obs : List (RoundObs L α)) : List L × State α :=
+  fit eps pat ntrain nvalid maxRounds vmax train0 valid0 (obs.map (roundEv noFit epsMach))
 
 /-- `gboost_model_t::do_predict`: `outputs = bias; for (wlearner : m_wlearners) wlearner->predict(…, outputs)` — every
     weak learner *adds* its prediction; a learner is represented by its prediction function -/
